@@ -1,4 +1,204 @@
-def run_batt_life(sess, sysobj, op, passed):
-    return None
-def check_batt_life(sess, op, res):
+"""SimPeer: scripted battery models behind batt_life()'s pfunc/dfunc callbacks,
+with call recording and fault injection at the k-th invocation; and the
+oracle over the recorded peer history (C18)."""
+import copy
+import math
+
+from . import observe as O
+
+
+class PeerFault(RuntimeError):
     pass
+
+
+class PeerLimit(RuntimeError):
+    pass
+
+
+class Battery:
+    """Deterministic battery model described by plain data.
+
+    kind: 'cc' constant voltage coulomb counter; 'linear' voltage falls
+    linearly with depth of discharge; 'stepped' piecewise-constant voltage;
+    'imp' impedance grows with depth of discharge; 'early' already at/below
+    cut-off or empty at the first probe."""
+
+    def __init__(self, model, fault=None, limit=400, sweeps=None):
+        self.sweeps = sweeps
+        self.sweeps_seen = sweeps.fwd if sweeps is not None else 0
+        self.m = model
+        self.cap0 = model["cap"]
+        self.cap = model["cap"]
+        self.calls = 0
+        self.log = []  # (kind, t, i, returned state)
+        self.fault = fault
+        self.limit = limit
+        self.sim_seconds = 0.0
+
+    def _state(self):
+        m = self.m
+        d = 1.0 - self.cap / self.cap0 if self.cap0 else 1.0
+        d = min(max(d, 0.0), 1.5)
+        k = m["kind"]
+        v0, v1 = m["v0"], m["v1"]
+        if k == "cc":
+            v = v0
+        elif k in ("linear", "imp", "early"):
+            v = v0 - (v0 - v1) * d * m.get("slope", 1.0)
+        elif k == "stepped":
+            steps = m.get("steps", 4)
+            v = v0 - (v0 - v1) * (math.floor(d * m.get("slope", 1.0) * steps) / steps)
+        else:
+            raise AssertionError(k)
+        rs = m["rs0"] + (m.get("rs1", m["rs0"]) - m["rs0"]) * min(d * m.get("slope", 1.0), 1.0)
+        return (self.cap, v, rs)
+
+    def _enter(self, kind):
+        self.calls += 1
+        if self.calls > self.limit:
+            raise PeerLimit("battery model gave up after %d calls" % self.limit)
+        if self.sweeps is not None:
+            used = self.sweeps.fwd - self.sweeps_seen
+            self.sweeps_seen = self.sweeps.fwd
+            if used > 3000:
+                # the system has no steady state for this battery state: the
+                # property does not speak about it, and it would take minutes
+                raise PeerLimit("solver needed %d sweeps; battery model gives up" % used)
+        f = self.fault
+        if f and f["k"] == self.calls:
+            self.fired = True
+            if f.get("exc") == "KeyboardInterrupt":
+                raise KeyboardInterrupt()
+            raise PeerFault("injected failure at call %d (%s)" % (self.calls, kind))
+
+    def probe(self):
+        self._enter("probe")
+        st = self._state()
+        self.log.append(("probe", None, None, st))
+        return st
+
+    def deplete(self, t, i):
+        self._enter("deplete")
+        t, i = float(t), float(i)
+        self.cap = self.cap - i * t / 3600.0
+        self.sim_seconds += t if math.isfinite(t) else 0.0
+        st = self._state()
+        self.log.append(("deplete", t, i, st))
+        return st
+
+
+def run_batt_life(sess, sysobj, op, passed):
+    """Invoke batt_life against a fresh scripted battery; returns a canonical
+    (frame, peer log) pair.  The peer is kept on the session for the oracle."""
+    bat = Battery(copy.deepcopy(op["model"]), fault=op.get("pfault"), limit=op.get("limit", 400), sweeps=sess.w.sweeps)
+    sess.last_peer = bat
+    kw = {}
+    if op.get("tags"):
+        tags = copy.deepcopy(op["tags"])
+        passed.append(("tags", tags, copy.deepcopy(tags)))
+        kw["tags"] = tags
+    old = sess.w.clock.behaviour
+    if op.get("clock"):
+        sess.w.clock.behaviour = op["clock"]
+    try:
+        df = sysobj.batt_life(op["battery"], cutoff=op["cutoff"], pfunc=bat.probe, dfunc=bat.deplete, **kw)
+    except KeyboardInterrupt:
+        sess.stats["fault_fired:peer_keyboard_interrupt"] += 1
+        raise PeerFault("KeyboardInterrupt")
+    finally:
+        sess.w.clock.behaviour = old
+        sess.stats["batt_steps"] += max(0, len(bat.log) - 1)
+        sess.stats["batt_sim_seconds"] += int(bat.sim_seconds)
+        if getattr(bat, "fired", False):
+            sess.stats["fault_fired:peer_exception_at_k"] += 1
+    cols, rows = O.frame_rows(df)
+    return {"cols": cols, "rows": rows}
+
+
+def check_batt_life(sess, op, res):
+    """C18: the recorded peer history against the reference (from-scratch
+    solve with the last returned battery state)."""
+    if "C18" not in sess.enabled:
+        return
+    m = sess.model
+    bat = getattr(sess, "last_peer", None)
+    name = m.resolve(op["battery"])
+    if name is None or m.kind(name) != "Source":
+        if not (res[0] == "exc" and res[1] == "ValueError"):
+            sess.fail("C18", "non-source-rejected", "batt_life(%r) -> %s" % (op["battery"], repr(res)[:200]))
+        sess.stats["c18_non_source"] += 1
+        return
+    if op.get("pfault"):
+        return  # judged by C17
+    if res[0] != "ok":
+        if res[1] == "PeerLimit":
+            sess.stats["c18_peer_limit"] += 1
+            return
+        sess.fail("C18", "batt-life-succeeds", "batt_life raised %s(%s)" % (res[1], res[2]))
+    log = bat.log
+    if not log or log[0][0] != "probe" or any(e[0] == "probe" for e in log[1:]):
+        sess.fail("C18", "probe-once-first", "peer calls: %s" % [e[0] for e in log][:8])
+    phases = list(m.sys_phases.keys()) or [""]
+    cutoff = op["cutoff"]
+    # reference: a from-scratch system whose battery takes the last returned state
+    fresh = sess.build_fresh()
+    spec0 = copy.deepcopy(m.comps[name])
+    from .spec import build
+
+    state = log[0][3]
+    exp_rows = [(0.0,) + tuple(state)]
+    tsum = 0.0
+    alive = state[0] > 0.0 and state[1] > cutoff
+    n_dep = 0
+    currents = set()
+    for idx, e in enumerate(log[1:]):
+        if not alive:
+            sess.fail("C18", "stops-at-first-violating-state", "deplete call %d after state %r (cutoff %r)" % (idx + 1, state, cutoff))
+        ph = phases[idx % len(phases)]
+        _, t, i, st = e
+        spec = copy.deepcopy(spec0)
+        spec["p"]["vo"], spec["p"]["rs"] = state[1], state[2]
+        fresh.change_comp(name, comp=build(spec), group=m.groups[name], rail=m.rails[name])
+        if m.phase_conf[name]:
+            fresh.set_comp_phases(name, copy.deepcopy(m.phase_conf[name]))
+        df = fresh.solve(phase=ph) if ph else fresh.solve()
+        tb = O.Table(df)
+        iref = tb.comp[ph][name]["Iout (A)"]
+        if abs(i - iref) > 2e-4 * max(abs(iref), abs(i)) + 1e-9:
+            sess.fail("C18", "deplete-current-is-solved-current", "call %d phase %r: dfunc got I=%r, steady-state battery current for vo=%r rs=%r is %r" % (idx + 1, ph, i, state[1], state[2], iref))
+        if ph:
+            want_t = m.sys_phases[ph]
+            if t != want_t:
+                sess.fail("C18", "deplete-time-is-phase-duration", "call %d: t=%r, phase %r lasts %r" % (idx + 1, t, ph, want_t))
+        else:
+            want_t = bat.cap0 / i * 3.6 if i else float("inf")
+            if not (abs(t - want_t) <= 1e-9 * abs(want_t)):
+                sess.fail("C18", "deplete-time-is-one-thousandth", "call %d: t=%r want cap0/I*3.6=%r" % (idx + 1, t, want_t))
+        tsum += t
+        state = st
+        currents.add(round(i, 9))
+        n_dep += 1
+        alive = state[0] > 0.0 and state[1] > cutoff
+        if alive:
+            exp_rows.append((tsum,) + tuple(state))
+    if alive:
+        sess.fail("C18", "runs-until-depleted", "batt_life returned while capacity %r > 0 and voltage %r > cutoff %r" % (state[0], state[1], cutoff))
+    rows = res[1]["rows"]
+    got = [(r["Time (s)"], r["Capacity (Ah)"], r["Voltage (V)"], r["Resistance (Ohm)"]) for r in rows]
+    if len(got) != len(exp_rows):
+        sess.fail("C18", "log-rows", "log has %d rows, expected %d (initial + states with capacity>0 and voltage>cutoff)" % (len(got), len(exp_rows)))
+    for k, (g, w) in enumerate(zip(got, exp_rows)):
+        for a, b in zip(g, w):
+            if not (a == b or abs(a - b) <= 1e-9 * max(abs(a), abs(b))):
+                sess.fail("C18", "log-values", "row %d: %r want %r" % (k, g, w))
+        if k and not got[k][0] > got[k - 1][0]:
+            sess.fail("C18", "time-strictly-increasing", "row %d time %r after %r" % (k, got[k][0], got[k - 1][0]))
+    if op.get("tags"):
+        for r in rows:
+            for kk, vv in op["tags"].items():
+                if r.get(kk) != vv:
+                    sess.fail("C18", "tags-columns", "row %r lacks tag %r" % (r, kk))
+    sess.stats["c18_logs_checked"] += 1
+    if len(got) >= 3:
+        sess.nontrivial.add(("batt", op["model"]["kind"], len(phases), m.sources().index(name), "cut" if state[1] <= cutoff else "cap", len(currents) > 1))
+        sess.stats["c18_nontrivial"] += 1
